@@ -39,6 +39,8 @@ func runC05(c *Ctx) {
 	checkSkipFKsMonotone(c, "R05g")
 	c.Rule("R05j", ruleTextApplyStops, 1)
 	checkApplyStops(c, "R05j")
+	c.Rule("R05k", ruleTextScanOrder, 2)
+	checkScanOrder(c, "R05k")
 	c.Rule("R05i", ruleTextTxOpenerRegistered, 2)
 	checkTxOpenerRegistered(c, "R05i")
 	c.Rule("R05h", ruleTextSqliteBegin, 1)
@@ -628,6 +630,8 @@ func runC01(c *Ctx) {
 	checkScanOrder(c, "R01r")
 	c.Rule("R01s", ruleTextNoSelfCompare, 20)
 	checkNoSelfCompare(c, "R01s")
+	c.Rule("R01t", ruleTextNormaliseOwnSide, 2)
+	checkNormaliseOwnSide(c, "R01t")
 	c.Rule("R01q", ruleTextColumnAttrCoverage, 2)
 	checkColumnAttrCoverage(c, "R01q")
 	c.Rule("R01n", ruleTextCheckWrap, 3)
